@@ -473,12 +473,12 @@ def _run_timing(case):
         best = None
         for _ in range(3):
             l = _x.ModelLoader()
-            t0 = time.perf_counter()
+            t0 = time.process_time()
             try:
                 l.input(text)
             except _x.ParsingException:
                 pass
-            dt = time.perf_counter() - t0
+            dt = time.process_time() - t0
             best = dt if best is None else min(best, dt)
         return best
     t1 = once(n)
@@ -507,7 +507,7 @@ def run_impl(case):
     for k, text in enumerate(texts):
         before = _deep(loader.statements)
         ident = loader.statements
-        t0 = time.perf_counter()
+        t0 = time.process_time()
         try:
             loader.input(text)
             outs.append(Sym('accepted'))
@@ -526,7 +526,7 @@ def run_impl(case):
         except Exception as e:
             outs.append(Sym('other'))
             fail('input-raises:%s' % type(e).__name__, 'input(%r) raised %s: %s' % (text[:300], type(e).__name__, str(e)[:200]))
-        dt = time.perf_counter() - t0
+        dt = time.process_time() - t0
         if dt > 2.0 + 2e-4 * len(text):
             fail('time-budget', 'input of %d characters took %.2fs: %r' % (len(text), dt, text[:100]))
         stats['stream_' + case['streams'][k]] = stats.get('stream_' + case['streams'][k], 0) + 1
